@@ -83,7 +83,8 @@ def h_scratch(ctx, case):
                     f.write('belongs to another run')
                 sentinels.append((p, 'belongs to another run'))
                 planted += [name, os.path.join(name, 'other_run.txt')]
-    fail = ctx.choice('failure', 4)     # 0 none, 1 worker, 2 env, 3 query
+    # 0 none, 1 worker, 2 env, 3 query, 4 output location not writable
+    fail = ctx.choice('failure', 5)
     earlier = ctx.flag('an_earlier_run_wrote_to_the_same_output_paths')
     if earlier:
         # a successful run with other settings (two runners-up, other
@@ -122,6 +123,11 @@ def h_scratch(ctx, case):
         with open(bad, 'wb') as f:
             f.write(open(cfg['query_path'], 'rb').read()[:300])
         cfg['query_path'] = bad
+    if fail == 4:
+        # the JSON output is asked for in a directory that does not
+        # exist: the run refuses before it starts
+        cfg['extended_result_path'] = os.path.join(
+            work['out'], 'no_such_directory', 'result.json')
     if fail == 2:
         which = ctx.choice('env_point', len(SC.ENV_POINTS))
         when = ['before', 'after'][ctx.choice('env_when', 2)]
